@@ -148,9 +148,9 @@ Proof.
 Qed.
 
 (* ---- for_each ---- *)
-Lemma C48_foreach_proof : forall c p, 0 <= fe_n c -> 0 <= fe_N c -> fe_plan c = Some p ->
-  forall l, NoDup l -> incl l p -> Z.of_nat (length l) <= Z.max 1 (wrap_s 32 (fe_maxThreads c)).
+Lemma C48_foreach_proof : forall c l, NoDup l -> incl l (fe_plan c) ->
+  Z.of_nat (length l) <= Z.max 1 (wrap_s 32 (fe_maxThreads c)).
 Proof.
-  intros c p Hn HN Hp l Hnd Hinc. pose proof (NoDup_incl_length Hnd Hinc) as L.
-  pose proof (fe_plan_length_proof c p Hn HN Hp). lia.
+  intros c l Hnd Hinc. pose proof (NoDup_incl_length Hnd Hinc) as L.
+  pose proof (fe_plan_length_proof c). lia.
 Qed.
